@@ -53,6 +53,20 @@ pub fn configs_c02(tier: Tier) -> Vec<Box<dyn Config>> {
     if tiny {
         return v;
     }
+    // reservation requests around every overflow boundary, fallible and infallible: no invalid layout reaches the
+    // allocator, the infallible paths panic with the documented message instead of reaching unreachable code
+    {
+        fn tr<L: Lay>(v: &mut Vec<Box<dyn Config>>, coll: Coll, u: u8, tier: Tier) {
+            let mut h = LayHarness::<L>::new(coll, Plan::Zero, u, false);
+            h.try_reserve_probes = true;
+            let l = format!("{}-reservation-boundaries", h.label());
+            v.push(Box::new(BfsConfig::new(l, h, Limits { max_wall_s: if tier == Tier::Quick { 30.0 } else { 600.0 }, ..Default::default() })));
+        }
+        let u = if q { 2 } else { 5 };
+        tr::<Z0>(&mut v, Coll::Table, u, tier);
+        tr::<S8>(&mut v, Coll::Map, u, tier);
+        tr::<D200>(&mut v, Coll::Set, u, tier);
+    }
     // the HashMap history space with all memory monitors (tracked + plain flavours)
     let mut c = MapCfg::new(Plan::Zero, if q { 6 } else { 11 });
     c.max_buckets = if sse2 { 64 } else { 32 };
